@@ -395,7 +395,9 @@ def smtp_scenarios(draw):
         elif r == 19:
             code = draw(st.integers(100, 999))
         else:
-            kinds = ["close", "close", "rst", "close_partial"] + (["stall"] if p > 0 else []) + (["close_unread"] if t == "dot" else [])
+            # a stall costs timeoutremote (3 s) of real time: keep it rare
+            kinds = (["close", "close", "rst", "close_partial"] + (["stall"] if p > 0 and draw(st.integers(0, 2)) == 0 else [])
+                     + (["close_unread"] if t == "dot" else []))
             k = draw(st.sampled_from(kinds))
             ph = {"k": "close" if k in ("close_partial", "rst") else k, "rst": k == "rst", "sent": 0}
             if k == "close_partial":
@@ -552,7 +554,8 @@ class RemoteRunner:
     def execute(self, sc):
         h = self.h
         stall = any(ph["k"] == "stall" for ph in sc["phases"])
-        h.control("timeoutremote", "1\n" if stall else "15\n")
+        # generous even on a loaded machine: the scripted server answers within milliseconds; only a scripted stall waits this long
+        h.control("timeoutremote", "3\n" if stall else "20\n")
         with open(os.path.join(h.queue, "lock", "tcpto"), "wb") as f:
             f.write(b"\0" * 1024)
         res = {}
